@@ -58,7 +58,9 @@ def gen_decl(draw, name, classes, keywords=True, rest=True, untyped_ret=False, a
             args.append({"types": draw(gen_type(classes, allow_untyped=False)), "key": None, "default": False, "rest": False})
     if keywords:
         nk = draw(st.sampled_from([0, 0, 0, 1, 2]))
-        for kname in ["ka", "kb", "kc"][:nk]:
+        # name pools: in the second and third one the order of the names with and without their colon differs ("k10:" < "k1:")
+        pool = draw(st.sampled_from([["ka", "kb", "kc"], ["k1", "k10", "k2"], ["x", "x2", "x_y"], ["kb", "ka", "kB"]]))
+        for kname in pool[:nk]:
             args.append({"types": draw(gen_type(classes)), "key": kname, "default": draw(st.booleans()), "rest": False})
     ret = draw(gen_type(classes, allow_untyped=untyped_ret, arrays=arrays))
     if arrays and draw(st.integers(0, 5)) == 0:
